@@ -107,7 +107,8 @@ theorem search_ok_reach_succ_ok (S : TSys σ κ) (Inv : σ → Prop) (hc : Congr
 
 end SearchOk
 
-/-! ## draws consumed by one simulator step (rates zero: at most four per action) -/
+/-! ## draws consumed by one simulator step (duplication rate zero: at most four per action; a send dropped at random
+consumes one) -/
 section Draws
 
 variable {σ T : Type} [TimeOps T]
@@ -216,9 +217,7 @@ theorem sim_step_draws (h : Handler σ) (q q' : Sim σ T) (r : RState σ)
       have hrun := onMessage_run _ _ _ _ _ _ _ _ _ hdel
       obtain ⟨hdn, hld, hls⟩ := hr.queue.msgLoc e f5 mid m src sn dst dn hd
       have hed : e ∈ q.deliverable := (mem_deliverable q e).2 ⟨f5, hdst⟩
-      have hkm : (m, src, dst) ∈ r.flights.map Flight.key := by
-        rw [hr.flights.perm.mem_iff, List.mem_filterMap]
-        exact ⟨e, hed, by rw [hd]; rfl⟩
+      have hkm : (m, src, dst) ∈ r.flights.map Flight.key := hr.flights.key_mem hed (by rw [hd]; rfl)
       obtain ⟨fl, g1, g2, g4, g3⟩ := firstKeyIdx_spec (m, src, dst) r.flights hkm
       obtain ⟨i, hi⟩ : ∃ i, i = firstKeyIdx (m, src, dst) r.flights := ⟨_, rfl⟩
       rw [← hi] at g1 g3 g4
